@@ -113,7 +113,7 @@ def sym_stack(extra_models=None, fresh=False):
     mseq.MutableSeq = bio.MutableSeq
     mrec.SeqRecord = bio.SeqRecord
     for k in ("SeqFeature", "FeatureLocation", "SimpleLocation", "CompoundLocation",
-              "ExactPosition", "Reference", "Position", "Location"):
+              "ExactPosition", "BeforePosition", "AfterPosition", "Reference", "Position", "Location"):
         setattr(mfeat, k, getattr(bio, k))
     mrestr = restriction.RestrictionModule("Bio.Restriction")
     mbio.Seq = mseq
@@ -206,6 +206,7 @@ def sym_stack(extra_models=None, fresh=False):
     lib = dict(Seq=bio.Seq, SeqRecord=bio.SeqRecord, SeqFeature=bio.SeqFeature,
                FeatureLocation=bio.SimpleLocation, SimpleLocation=bio.SimpleLocation,
                CompoundLocation=bio.CompoundLocation, Reference=bio.Reference,
+               BeforePosition=bio.BeforePosition, AfterPosition=bio.AfterPosition,
                enzyme=lambda name: getattr(mrestr, name), load=load, models=models,
                load_errors=load_errors, builtins=bi)
     st = Stack("sym", mods, lib)
@@ -256,6 +257,7 @@ def real_stack():
                SimpleLocation=Bio.SeqFeature.SimpleLocation,
                CompoundLocation=Bio.SeqFeature.CompoundLocation,
                Reference=Bio.SeqFeature.Reference,
+               BeforePosition=Bio.SeqFeature.BeforePosition, AfterPosition=Bio.SeqFeature.AfterPosition,
                enzyme=lambda name: getattr(Bio.Restriction, name), load=mod, models={},
                load_errors=load_errors, builtins=vars(builtins))
     _REAL = Stack("real", mod, lib)
